@@ -20,6 +20,8 @@ LEVEL_TEXT = ('Decides from the source: Node._cached_children, interpreted on ch
               'children_of(node) for every node it visits; generated model classes and the engine derive attribute names from the '
               'same defines lists. Attribute values, class synthesis/identity and registry effects are not decided (runtime object '
               'graphs).')
+TECHNIQUE += '; interpretation of the declared-base resolution of the model builder for every subset of known names'
+LEVEL_TEXT += ' Added clause: a class declared `::Name::Base` is created with the declared bases whether or not each name is already known to the builder.'
 LEVEL_NOTE = 'Eager interpretation of generators (a generator call whose values are not consumed contributes nothing, as in Python).'
 EXPLANATION = ('Static analysis of /repo sources, TatSu not imported. The dfs inside Node._cached_children is interpreted by the '
                'whitelisted evaluator; walkers are checked structurally.')
